@@ -1258,3 +1258,46 @@ def _operand_shape(prog, o):
     if 'ca' in o:
         return numpy.shape(o['ca'])
     return ()
+
+
+def twin(prog, rng):
+    """A program with the same skeleton (same operations, shapes, node count) but other
+    constants, indices and keyword arguments: two graphs that differ only in what a cache keyed
+    on position, ID, shape or node count cannot see."""
+    import copy
+    new = copy.deepcopy(prog)
+    n0 = len(new['n_in'])
+
+    def shape_of(o):
+        return _operand_shape(new, o)
+    for ins in new['instrs']:
+        op = ins['op']
+        # fresh constants of the same form
+        a = []
+        for o in ins['a']:
+            if isinstance(o, dict) and 'ca' in o and op in ('mul', 'dot'):
+                # (weights only: the arrays added in the linear-algebra blocks are structure -- 3 I,
+                # the eigenvalue spread -- and must stay)
+                o = const_array(rng, numpy.shape(o['ca']))
+            elif isinstance(o, dict) and ('c' in o or 'cn' in o) and op in ('add', 'sub'):
+                k = 'c' if 'c' in o else 'cn'
+                v = o[k]
+                if abs(v) <= 2.0 and v not in (1.5, 2.5, 0.5):      # keep the domain-safety offsets
+                    o = {k: _q(rng, -2.0, 2.0, 0.25)}
+            a.append(o)
+        ins['a'] = a
+        if op == 'sum':
+            sh = shape_of(ins['a'][0])
+            if sh is not None and len(sh) == 2 and sh[0] == sh[1] and ins['axis'] is not None:
+                ins['axis'] = {0: 1, 1: 0, -1: -2, -2: -1}[ins['axis']]
+        elif op == 'fft':
+            sh = shape_of(ins['a'][0])
+            if sh is not None and len(sh) == 2 and sh[0] == sh[1]:
+                ins['axis'] = {0: 1, 1: 0, -1: -2, -2: -1}[ins['axis']]
+                if ins['n'] is not None:
+                    ins['n'] = sh[0]
+        elif op in ('getitem', 'setitem') and isinstance(ins['ix'], int):
+            sh = shape_of(ins['a'][0])
+            if sh is not None and len(sh) == 1 and sh[0] > 1 and op == 'getitem':
+                ins['ix'] = (ins['ix'] + 1) % sh[0]
+    return new
